@@ -1,0 +1,49 @@
+//go:build verif
+
+// Package scha is a verification-only facade (build tag "verif") over the
+// j5s source-to-descriptor conversion in internal/j5s/j5convert, entered with
+// an already-built source AST instead of j5s text. It adds no behaviour: it
+// calls SourceSummary and ConvertJ5File the way protobuild does for one file
+// whose type references stay inside the file.
+package scha
+
+import (
+	"fmt"
+
+	"github.com/pentops/j5/gen/j5/sourcedef/v1/sourcedef_j5pb"
+	"github.com/pentops/j5/internal/bcl/errpos"
+	"github.com/pentops/j5/internal/j5s/j5convert"
+	"google.golang.org/protobuf/types/descriptorpb"
+)
+
+type warnings struct{}
+
+func (warnings) WarnPos(pos *errpos.Position, err error) {}
+
+// ownTypes resolves references to the types the file itself exports.
+type ownTypes struct {
+	pkg     string
+	exports map[string]*j5convert.TypeRef
+}
+
+func (o ownTypes) ResolveType(pkg string, name string) (*j5convert.TypeRef, error) {
+	if pkg == "" || pkg == o.pkg {
+		if t, ok := o.exports[name]; ok {
+			return t, nil
+		}
+		return nil, &j5convert.TypeNotFoundError{Name: name}
+	}
+	return nil, &j5convert.TypeNotFoundError{Package: pkg, Name: name}
+}
+
+// ConvertSource converts one parsed j5s source file to file descriptors.
+func ConvertSource(file *sourcedef_j5pb.SourceFile) ([]*descriptorpb.FileDescriptorProto, error) {
+	if file.GetPackage() == nil {
+		return nil, fmt.Errorf("source file has no package")
+	}
+	summary, err := j5convert.SourceSummary(file, warnings{})
+	if err != nil {
+		return nil, err
+	}
+	return j5convert.ConvertJ5File(ownTypes{pkg: file.Package.Name, exports: summary.Exports}, file)
+}
